@@ -291,7 +291,9 @@ def explore(h, params, tier, seed, canary=False, known=(), stop_on_violation=Fal
             if m is not None:
                 vals, funcs = extract_inputs(ctx, m)
                 rep = conc_run(h, params, vals, funcs, canary=canary)
-                if rep.status == "exception" and type(rep.exc) is type(out.exc):
+                if rep.status == "exception" and (isinstance(rep.exc, type(out.exc))
+                                                  or isinstance(out.exc, type(rep.exc))):
+                    # (numpy raises subclasses, e.g. UFuncTypeError on arrays where proxies give TypeError)
                     v = dict(obligation="no-unexpected-exception", inputs=vals, observed=repr(rep.exc)[:300],
                              tb=rep.tb)
                     _record_violation(res, h, params, v, known, replay_dir)
